@@ -207,11 +207,12 @@ trigger` for these calls; the theorems below close that gap.  A rule object is w
 theorem code_isLoaded (a c : Bool) : ∃ σ, Gen.Code.Rule_is_loaded.run a c {} = .ok σ ∧ σ.ret = some (a && c) :=
   Op.Activation.code_isLoaded a c
 
-/-- **Tie A.**  `Rule.deactivate` = `Op.Activation.deactivate`: degree 0, not triggered, nothing else written -/
-theorem code_deactivate (r : Spec.Activation.Rule ℚ) :
-    ∃ σ, Gen.Code.Rule_deactivate.run {} = .ok σ ∧
+/-- **Tie A.**  `Rule.deactivate` = `Op.Activation.deactivate`: whatever the two fields held before (the state `σ₀`),
+    degree 0, not triggered, nothing else written -/
+theorem code_deactivate (r : Spec.Activation.Rule ℚ) (σ₀ : Gen.Code.Rule_deactivate.S) :
+    ∃ σ, Gen.Code.Rule_deactivate.run σ₀ = .ok σ ∧
       { r with actDegree := σ.self_activation_degree, triggered := σ.self_triggered } = Op.Activation.deactivate r :=
-  Op.Activation.code_deactivate r
+  Op.Activation.code_deactivate r σ₀
 
 /-- **Tie A.**  `Rule.activate_with` on a rule with weight `w` whose antecedent is the loaded tree `a` (evaluated by the
     translated `Antecedent.activation_degree`, `Op.Activation.anteCall`; every variable still has a term): a rule that is
@@ -229,19 +230,21 @@ theorem code_activateWith (c : Lang.DegCtx ℚ) (hasTerms : String → Bool) (w 
           { r with actDegree := σ.self_activation_degree } = Op.Activation.activateWith r :=
   Op.Activation.code_activateWith c hasTerms w a hall
 
-/-- **Tie A.**  `Rule.trigger`: a rule that is not loaded raises `RuntimeError` (after resetting `triggered`); a loaded
-    rule with the conclusions `cs` sets `triggered` and appends the activated terms exactly as `Op.Consequent.trigger`
+/-- **Tie A.**  `Rule.trigger` (`triggered₀`: the value of the field `triggered` before the call): a rule that is not
+    loaded raises `RuntimeError` (after resetting `triggered`); a loaded rule with the conclusions `cs` sets `triggered` and appends the activated terms exactly as `Op.Consequent.trigger`
     says (nothing for a disabled rule; `degree > 0` and the output of `Consequent.modify` for an enabled one), leaves the
     degree as it was, and calls `consequent.modify` with the degrees that `Op.Activation.trigger` lists. -/
-theorem code_trigger (san : X ℚ → X ℚ) (impl : String) (enabled : Bool) (d : X ℚ) :
-    (∀ ps : List Py.Cons.Proposition, Gen.Code.Rule_trigger.run san impl false enabled d ps {} = .error .runtime) ∧
+theorem code_trigger (san : X ℚ → X ℚ) (impl : String) (enabled : Bool) (d : X ℚ) (triggered₀ : Bool) :
+    (∀ ps : List Py.Cons.Proposition,
+      Gen.Code.Rule_trigger.run san impl false enabled d ps { self_triggered := triggered₀ } = .error .runtime) ∧
     (∀ cs : List (Concl (X ℚ)), cs ≠ [] →
-      ∃ σ, Gen.Code.Rule_trigger.run san impl true enabled d (cs.map Py.Cons.ofConcl) {} = .ok σ ∧
+      ∃ σ, Gen.Code.Rule_trigger.run san impl true enabled d (cs.map Py.Cons.ofConcl) { self_triggered := triggered₀ }
+          = .ok σ ∧
         (σ.self_triggered, σ.out) = Op.Consequent.trigger san (X.lt (.fin 0)) enabled d impl cs ∧
         σ.self_activation_degree = d ∧
         ∀ (i : Nat) (r : Spec.Activation.Rule ℚ), r.enabled = enabled → r.actDegree = d →
           ({ r with triggered := σ.self_triggered }, σ.calls.map (fun x => (i, x))) = Op.Activation.trigger i r) :=
-  Op.Activation.code_trigger san impl enabled d
+  Op.Activation.code_trigger san impl enabled d triggered₀
 
 /-! ## the sanitiser of `Activated.degree` and the F3 witness, at `X ℚ` -/
 
